@@ -6,6 +6,7 @@ import (
 	"strings"
 	"time"
 
+	"storj.io/drpc"
 	"storj.io/drpc/drpcconn"
 	"storj.io/drpc/drpcmux"
 	"storj.io/drpc/drpcpool"
@@ -95,9 +96,21 @@ func (x *e1) setupPooled() {
 		}
 		x.d.Record(taskName(), "dial", fmt.Sprintf("conn%d", n))
 		x.res.probe("pooled_dials")
-		return pc.c, nil
+		return &trackConn{Conn: pc.c}, nil
 	}
 	x.cli = ps.pool.Get(context.Background(), "k", dial)
+	// sometimes the application closes its pool connection in the middle of the
+	// run (streams it started go on) and continues with a fresh one for the same key
+	if x.ch.Bool("cfg", 0.25) {
+		delay := x.ch.Pick("cfg", 60)
+		x.rt.Spawn("early-close", func() {
+			x.delay("early-close-delay", delay)
+			old := x.cli
+			x.cli = ps.pool.Get(context.Background(), "k", dial)
+			x.call("PoolConn.Close(early)", func() { _ = old.Close() })
+			x.res.probe("pool_conn_closed_mid_run")
+		})
+	}
 
 	x.rt.Spawn("cli-init", func() {
 		for j := 0; j < x.prog.NTasks; j++ {
@@ -131,6 +144,19 @@ func (x *e1) poolBounds() {
 	}
 	if ps.opts.Capacity < 0 && len(st.Order) > 0 {
 		x.viol("pool-bounds", "pool with negative capacity caches a connection", "")
+	}
+	// a cached connection is not in use: the pool gets a connection back only when
+	// the call or stream that took it has ended
+	// (a cancelled call may leave its connection blocked for a moment; a stream
+	// whose context is not done yet is in progress for sure)
+	for _, v := range st.Order {
+		if tc, ok := v.(*trackConn); ok {
+			for _, s := range tc.streams {
+				if !sigClosed(s.Context().Done()) {
+					x.viol("pool-bounds", "a connection with a stream still in progress is in the pool's cache", "")
+				}
+			}
+		}
 	}
 	for k, l := range st.Keys {
 		if ps.opts.KeyCapacity > 0 && len(l) > ps.opts.KeyCapacity {
@@ -247,4 +273,19 @@ func dedupSorted(in []string) []string {
 		m[s] = true
 	}
 	return sortedKeys(m)
+}
+
+// trackConn is what the dial function hands to the pool: the real connection,
+// remembering the streams started on it.
+type trackConn struct {
+	*drpcconn.Conn
+	streams []drpc.Stream
+}
+
+func (t *trackConn) NewStream(ctx context.Context, rpc string, enc drpc.Encoding) (drpc.Stream, error) {
+	s, err := t.Conn.NewStream(ctx, rpc, enc)
+	if err == nil {
+		t.streams = append(t.streams, s)
+	}
+	return s, err
 }
